@@ -8,7 +8,8 @@ tie     : 4 real clients x 2 goroutines hammer 3 nodes of the stock server with 
           a group run (one request writes / reads 4 nodes): group_history && untorn inside Coq, then the collapsed
           history (group = one register) through check_lin; every third run is a blob run: the values are 80 KiB
           ByteStrings (multi-chunk requests and responses) carrying a unique id in every word, writers alternate nodes;
-          a blob whose words disagree counts as a value nobody wrote.
+          a blob whose words disagree counts as a value nobody wrote; one run in six uses 64-byte ByteString values
+          read whole or with IndexRange "8:15" (a ranged read = a read of the register projected on the range).
 oracle  : a history check_lin rejects is searched exhaustively (python, per node, Wing-Gong with memoisation); if a
           linearization exists it is handed to check_lin_keys (Coq) as a hint; otherwise the history is the replay.
 """
@@ -179,7 +180,7 @@ def run(ctx):
     for o in obs:
         hist.setdefault((o["run"], o["mode"]), []).append(o)
     keys = sorted(hist)
-    singles = [k for k in keys if k[1] in ("single", "blob")]
+    singles = [k for k in keys if k[1] in ("single", "blob", "range")]
     groups = [k for k in keys if k[1] == "group"]
 
     new, corr_ok = 0, True
